@@ -106,7 +106,7 @@ func (r *real) nestedCall(n Op) string {
 		case "del":
 			v, err = r.coll.Delete(n.ID, writeOptions(n, cb)...)
 		default:
-			out = r.runRead(n)
+			out = strings.ReplaceAll(r.runRead(n), ";", "+") // a List result inside the `;`-separated list of results
 			return
 		}
 		out = showMsg(v) + "," + codeName(err)
@@ -132,6 +132,9 @@ func (o *oracle) stepNested(op Op) string {
 	ans := func(val, err string, evs, ins []string) string {
 		return fmt.Sprintf("val=%s err=%s ev=%s in=%s | %s", val, err, showList(evs), showList(ins), o.dump())
 	}
+	if op.Op == "upd" || op.Op == "add" {
+		return o.stepNestedColl(op, rop)
+	}
 	if op.Op != "vset" {
 		return "!bad-op"
 	}
@@ -150,15 +153,7 @@ func (o *oracle) stepNested(op Op) string {
 	reached := present && evOK && (op.Site == "chk" || e == "")
 	var ins, evs []string
 	if reached {
-		for _, n := range op.In {
-			a := o.step(n)
-			if n.isWrite() {
-				ins = append(ins, part(a, "val")+","+part(a, "err"))
-				evs = append(evs, listItems(part(a, "ev"))...)
-			} else {
-				ins = append(ins, a)
-			}
-		}
+		ins, evs = o.nestedCalls(op)
 	}
 	if e != "" {
 		return ans("nil", e, evs, ins)
@@ -171,6 +166,114 @@ func (o *oracle) stepNested(op Op) string {
 	et := o.writeTime(rop)
 	evs = append(evs, fmt.Sprintf("%s|%s", nm, et))
 	return ans(nm.String(), "-", evs, ins)
+}
+
+// nestedCalls runs the calls a callback makes, as ordinary calls in order.
+func (o *oracle) nestedCalls(op Op) (ins, evs []string) {
+	for _, n := range op.In {
+		a := o.step(n)
+		if n.isWrite() {
+			ins = append(ins, part(a, "val")+","+part(a, "err"))
+			evs = append(evs, listItems(part(a, "ev"))...)
+		} else {
+			ins = append(ins, strings.ReplaceAll(a, ";", "+"))
+		}
+	}
+	return ins, evs
+}
+
+// stepNestedColl: Collection.Update / Add with nested calls. The write works from the item it read (for an
+// item being created: from a provisional empty message); after the nested calls it goes through only if
+// the item then is what it read - an absent item counting as the provisional empty message when the write
+// may create - and is then the write of an ordinary sequence "nested calls, then the write" (an item
+// created meanwhile is updated, an item deleted meanwhile is added again).
+func (o *oracle) stepNestedColl(op, rop Op) string {
+	ans := func(val, err string, evs, ids []string, created int, ins []string) string {
+		return fmt.Sprintf("%s in=%s | %s", cout(val, err, evs, ids, created), showList(ins), o.dump())
+	}
+	xa, cia := rop.has("xa") || op.Op == "add", rop.has("cia") || op.Op == "add"
+	id := o.icpt(op.ID)
+	if e := o.validate(rop); e != "" {
+		return ans("nil", e, nil, nil, 0, nil)
+	}
+	var ids []string
+	if id == "" && rop.has("gid") {
+		found := false
+		for i := 0; i < 10 && !found; i++ {
+			cand := b64(o.read(6 + i))
+			key := o.icpt(cand)
+			if _, used := o.items[key]; cand != "" && !used {
+				id, found = key, true
+			}
+		}
+		if !found {
+			return ans("nil", "Aborted", nil, nil, 0, nil)
+		}
+		if rop.has("icb") {
+			ids = []string{id}
+		}
+	}
+	it, exists := o.items[id]
+	created := 0
+	var old *rmsg
+	switch {
+	case exists && xa:
+		return ans("nil", "AlreadyExists", nil, ids, 0, nil)
+	case exists:
+		m := it.m
+		old = &m
+	case !cia:
+		return ans("nil", "NotFound", nil, ids, 0, nil)
+	default:
+		if rop.has("ccb") {
+			created = 1
+		}
+	}
+	base := old
+	if base == nil {
+		base = &rmsg{}
+	}
+	nm, e := o.write(rop, base)
+	evOK := true
+	if ev, ok := rop.opt("ev"); ok {
+		evOK = base.equal(rparse(ev))
+	}
+	_, present := rop.opt(op.Site)
+	var ins, evs []string
+	if present && evOK && (op.Site == "chk" || e == "") {
+		ins, evs = o.nestedCalls(op)
+	}
+	if e != "" {
+		return ans("nil", e, evs, ids, created, ins)
+	}
+	// the item when the write comes to save
+	it2, exists2 := o.items[id]
+	var again *rmsg
+	add := old == nil
+	switch {
+	case exists2 && xa:
+	case exists2:
+		again, add = &it2.m, false
+	case old == nil:
+		again = &rmsg{}
+	case cia:
+		// read as existing, deleted meanwhile: it is being created now (the created callback fires)
+		again, add = &rmsg{}, true
+		if rop.has("ccb") {
+			created++
+		}
+	}
+	if again == nil || !base.equal(*again) {
+		return ans("nil", "Aborted", evs, ids, created, ins)
+	}
+	o.items[id] = ritem{m: nm, t: o.writeTime(rop)}
+	et := o.writeTime(rop)
+	kind, oldS := "ADD", "nil"
+	if !add {
+		kind, oldS = "UPDATE", base.String()
+	}
+	evs = append(evs, fmt.Sprintf("%s|%s|%s|%s|%s|", id, et, kind, oldS, nm))
+	return ans(nm.String(), "-", evs, ids, created, ins)
 }
 
 // monitorNested: the property's clauses for a write with nested calls, on the code's own observations:
@@ -190,7 +293,40 @@ func monitorNested(m *lib.Monitor, s Script, i int, want, got, pre string) {
 		}
 		return
 	}
+	m.Count("nested:succeeded-after-nested-calls")
 	if op.Op != "vset" {
+		// the item the write read, and the item as the last successful nested write to the same id left it
+		// (an absent item is read as an empty message by a write that may create it)
+		ic := newOracle(s.Cfg).icpt
+		id := ic(op.ID)
+		if id == "" {
+			return // a generated id: no nested call can name it
+		}
+		before := "absent"
+		for _, it := range listItems(stOf(pre)) {
+			if strings.HasPrefix(it, id+"~") {
+				before = it[len(id)+1 : strings.LastIndexByte(it, '@')]
+			}
+		}
+		stored := before
+		for k, r := range listItems(part(got, "in")) {
+			if k >= len(op.In) || !op.In[k].isWrite() || ic(op.In[k].ID) != id || !strings.HasSuffix(r, ",-") {
+				continue
+			}
+			if stored = strings.TrimSuffix(r, ",-"); op.In[k].Op == "del" {
+				stored = "absent"
+			}
+		}
+		norm := func(x string) string {
+			if x == "absent" {
+				return "0//-"
+			}
+			return x
+		}
+		if norm(stored) != norm(before) {
+			m.Violate("C01/"+callName[op.Op]+"/nested-write-overwritten", "the write succeeded although a write made from its own callback had changed the item since it was read: that write is lost, the call had to fail with Aborted and change nothing",
+				in, "err=Aborted, item "+stored+" kept", "err=- val="+part(got, "val"))
+		}
 		return
 	}
 	// the value the write read, and the value the last successful nested write stored
@@ -204,7 +340,6 @@ func monitorNested(m *lib.Monitor, s Script, i int, want, got, pre string) {
 			stored = strings.TrimSuffix(r, ",-")
 		}
 	}
-	m.Count("nested:succeeded-after-nested-calls")
 	if stored != before {
 		m.Violate("C01/Value.Set/nested-write-overwritten", "the write succeeded although a write made from its own callback had changed the value since it was read (a never-written value counts as a value): that write is lost, the call had to fail with Aborted and change nothing",
 			in, "err=Aborted, value "+stored+" kept", "err=- val="+part(got, "val"))
@@ -227,7 +362,37 @@ func genNestedOps(r *rand.Rand, cur *rmsg) []Op {
 	return ops
 }
 
-// withNested: gives a Value write a callback that makes nested calls (adding the callback when the write
+// genNestedOpsColl: the calls a callback of a Collection write makes: mostly on the item being written
+func genNestedOpsColl(r *rand.Rand, id string, cur *rmsg) []Op {
+	var ops []Op
+	for n := 1 + r.Intn(2); n > 0; n-- {
+		nid := id
+		if r.Intn(4) == 0 {
+			nid = pick(r, idPool)
+		}
+		var c *rmsg
+		if nid == id {
+			c = cur
+		}
+		switch k := r.Intn(10); {
+		case k < 1:
+			ops = append(ops, Op{Op: "get", ID: nid, Opts: genReadOpts(r, false)})
+		case k < 2:
+			ops = append(ops, Op{Op: "list", Opts: genReadOpts(r, true)})
+		case k < 4:
+			ops = append(ops, Op{Op: "del", ID: nid, Opts: genWriteOpts(r, "del", c)})
+		case k < 5 && c != nil:
+			ops = append(ops, Op{Op: "upd", ID: nid, Msg: msgText(*c)}) // writes what is stored already
+		case k < 7:
+			ops = append(ops, Op{Op: "add", ID: nid, Msg: genMsg(r), Opts: genWriteOpts(r, "add", c)})
+		default:
+			ops = append(ops, Op{Op: "upd", ID: nid, Msg: genMsg(r), Opts: genWriteOpts(r, "upd", c)})
+		}
+	}
+	return ops
+}
+
+// withNested: gives a write a callback that makes nested calls (adding the callback when the write
 // has none of the kind)
 func withNested(r *rand.Rand, op Op, cur *rmsg) Op {
 	site := pick(r, []string{"bf", "af", "chk"})
@@ -244,7 +409,11 @@ func withNested(r *rand.Rand, op Op, cur *rmsg) Op {
 			op.Opts = append(op.Opts, pick(r, []string{"chk=sEmpty", "chk=aEq:0", "chk=nonNil"}))
 		}
 	}
-	op.Site, op.In = site, genNestedOps(r, cur)
+	if op.Op == "vset" {
+		op.Site, op.In = site, genNestedOps(r, cur)
+	} else {
+		op.Site, op.In = site, genNestedOpsColl(r, op.ID, cur)
+	}
 	return op
 }
 
@@ -301,4 +470,54 @@ func (h *harness) nestedScope() {
 		}
 	}
 	h.tieN.Count(fmt.Sprintf("scripts=%d outer-writes=%d nested-lists=%d", n, len(outers), len(lists)))
+	h.nestedScopeColl()
+}
+
+// nestedScopeColl: the same on a Collection: (empty | item a stored | item a stored as the empty message) x
+// Update / Add of item a (or of a generated id) with a callback making nested calls x every list of up to 2
+// nested calls over 8 (create / update / delete of the same item, of another one, reads).
+func (h *harness) nestedScopeColl() {
+	outers := []Op{
+		{Op: "upd", ID: "a", Msg: "2//4", Opts: []string{"cia", "bf=bumpA"}, Site: "bf"},
+		{Op: "upd", ID: "a", Msg: "2//4", Opts: []string{"bf=addA", "um=a"}, Site: "bf"},
+		{Op: "upd", ID: "a", Msg: "2//4", Opts: []string{"cia", "ccb", "chk=aEq:0"}, Site: "chk"},
+		{Op: "upd", ID: "a", Msg: "2//4", Opts: []string{"cia", "af=stampC", "wt=9"}, Site: "af"},
+		{Op: "upd", ID: "a", Msg: "2//4", Opts: []string{"cia", "xa", "ccb", "af=markS"}, Site: "af"},
+		{Op: "add", ID: "a", Msg: "2//4", Opts: []string{"bf=bumpA"}, Site: "bf"},
+		{Op: "add", ID: "", Msg: "2//4", Opts: []string{"gid", "icb", "ccb", "chk=sEmpty"}, Site: "chk"},
+		{Op: "upd", ID: "a", Msg: "2//4", Opts: []string{"cia", "ev=1/x/-", "chk=nonNil", "chk=nil", "bf=copyC"}, Site: "bf"},
+	}
+	nested := []Op{
+		{Op: "add", ID: "a", Msg: "5/y/-"},
+		{Op: "upd", ID: "a", Msg: "1/x/-", Opts: []string{"cia"}},
+		{Op: "upd", ID: "a", Msg: "0//-", Opts: []string{"cia"}},
+		{Op: "del", ID: "a"},
+		{Op: "del", ID: "a", Opts: []string{"am"}},
+		{Op: "upd", ID: "b", Msg: "7//-", Opts: []string{"cia"}},
+		{Op: "get", ID: "a"},
+		{Op: "list"},
+	}
+	var lists [][]Op
+	for _, a := range nested {
+		lists = append(lists, []Op{a})
+		for _, b := range nested {
+			lists = append(lists, []Op{a, b})
+		}
+	}
+	cfgs := []Cfg{
+		{Kind: "coll", Tick: 1},
+		{Kind: "coll", Tick: 1, Init: []string{"a~1/x/-"}},
+		{Kind: "coll", Tick: 1, Init: []string{"a~0//-"}},
+	}
+	n := 0
+	for _, cfg := range cfgs {
+		for _, o := range outers {
+			for _, l := range lists {
+				o.In = l
+				h.runScript(Script{Cfg: cfg, Ops: []Op{o, {Op: "list"}}}, h.tieN)
+				n++
+			}
+		}
+	}
+	h.tieN.Count(fmt.Sprintf("collection: scripts=%d outer-writes=%d nested-lists=%d", n, len(outers), len(lists)))
 }
